@@ -213,7 +213,7 @@ theorem markers_embedded {s s' : State} {e : Ev} (hok : step s e = .ok s') {c : 
 theorem crecv_next {s s' : State} {c : Addr} {h : Hash} {st : Nat} {ds : List Desc}
     (hok : crecv s c h st ds = .ok s') : ∃ nxt, nextInLine s c = some nxt ∧ nxt.hash = h := by
   cases crecv_cases hok with
-  | plain nxt snd hnext hh _ _ _ _ _ => exact ⟨nxt, hnext, hh⟩
+  | plain nxt snd hnext hh _ _ _ _ _ _ => exact ⟨nxt, hnext, hh⟩
   | token nxt snd out hnext hh _ _ _ _ _ _ _ => exact ⟨nxt, hnext, hh⟩
 
 theorem step_fifo {s s' : State} {e : Ev} (hw : WF s) (hfifo : Fifo s) (hok : step s e = .ok s') : Fifo s' := by
